@@ -9,19 +9,21 @@ from ..rt import *
 from ..interp import Frame
 from ..standin import StandIn
 from ..values import *
-from .c03 import make_scsi_device, make_iscsi_device
+from .c03 import make_scsi_device, make_iscsi_device, slot, put, scsi_layout
 from spec import facade as reffacade
 
 
 def fresh_device(prog):
     """a device object as its constructor leaves it: no device type recorded yet"""
     dev = make_scsi_device(prog)
-    dev.attrs.pop("_devicetype", None)
+    dev.attrs.pop(scsi_layout(prog)["devicetype"], None)
     return dev
 
 
 def device_bytes_for(byte0):
-    return lambda n: [byte0] + [0] * (min(n, 36) - 1)
+    """standard INQUIRY data with the given byte 0; the rest of the header (bytes 1..7: RMB, version, response data format,
+    ADDITIONAL LENGTH, the flag bytes) is whatever the device sends (symbolic); the identification strings are zero"""
+    return lambda n: ([byte0] + [mem_byte("device", (None, i)) for i in range(1, min(n, 8))] + [0] * max(0, min(n, 36) - 8))[:n]
 
 
 def table_mutations_on_attach(prog):
@@ -37,7 +39,7 @@ def table_mutations_on_attach(prog):
         try:
             def t():
                 dev = fresh_device(prog)
-                dev.attrs["_opcodes"] = mod.env[reffacade.DEFAULT_SET]
+                put(prog, dev, "opcodes", mod.env[reffacade.DEFAULT_SET])
                 I.instantiate(scsi_cls, [dev], {}, None, _F())
                 ev = [e for e in I.events if e["kind"] in ("static-mutation", "class-store", "global-store")
                       and "scsi_enum_command" in str(e.get("origin") or e.get("cls") or e.get("module"))]
@@ -52,7 +54,7 @@ def table_mutations_on_attach(prog):
                             except PyRaise:
                                 snap[sname][k] = None
                 return ev, snap
-            for p in I.explore(t, max_paths=16):
+            for p in I.explore(t, max_paths=512):
                 n += 1
                 if p.returned:
                     out.extend((dt, e, p.value[1]) for e in p.value[0])
@@ -66,7 +68,18 @@ def thorough(prog, run):
     check(prog, run, reps=list(range(32)), only_reattach=True)
 
 
+def enough(run, limit=12):
+    """the tree already fails in many places: further scenario families add time, not information"""
+    n = len([v for v in run.violations if (run.pid, v["rule"], v["construct"]) not in run.known])
+    if n > limit and not getattr(run, "_cut_short", False):
+        run._cut_short = True
+        run.notes.append("more than %d violations: the remaining attach scenarios were not evaluated" % limit)
+    return n > limit
+
+
 def check(prog, run, reps=None, only_reattach=False):
+    from .c03 import prime_layouts
+    prime_layouts(prog)
     I = prog.I
     run.explanation = ("SCSI.__init__ / SCSI.__call__ (-> __init_opcode -> inquiry -> execute -> Inquiry.unmarshall_datain) are "
                        "abstractly interpreted over a stand-in transport that answers the INQUIRY with byte 0 = each of the 256 "
@@ -89,7 +102,7 @@ def check(prog, run, reps=None, only_reattach=False):
         cls = prog.cls("pyscsi.pyscsi.scsi_device" if nm == "SCSIDevice" else "pyscsi.pyiscsi.iscsi_device", nm)
         si = StandIn(prog).install()
         try:
-            ps = I.explore(lambda: I.instantiate(cls, [arg], {}, None, _F()), max_paths=16)
+            ps = I.explore(lambda: I.instantiate(cls, [arg], {}, None, _F()), max_paths=64)
         finally:
             si.remove()
         okp = [p for p in ps if p.returned]
@@ -98,7 +111,7 @@ def check(prog, run, reps=None, only_reattach=False):
                           prog.rel(cls.module), cls.node.lineno)
             continue
         for p in okp:
-            got = byid.get(id(p.value.attrs.get("_opcodes")))
+            got = byid.get(id(slot(prog, p.value, "opcodes")))
             if got == reffacade.DEFAULT_SET:
                 run.ok("device-default-set", nm, {"default": got})
             else:
@@ -120,18 +133,18 @@ def check(prog, run, reps=None, only_reattach=False):
         try:
             def t():
                 dev = fresh_device(prog)
-                dev.attrs["_opcodes"] = tables[reffacade.DEFAULT_SET]
+                put(prog, dev, "opcodes", tables[reffacade.DEFAULT_SET])
                 if entry == "init":
                     s = I.instantiate(scsi_cls, [dev], {} if blocksize is None else {"blocksize": blocksize}, None, _F())
                 else:
                     s = Instance(scsi_cls)
-                    s.attrs["_blocksize"] = 0 if blocksize is None else blocksize
+                    put(prog, s, "blocksize", 0 if blocksize is None else blocksize)
                     s.attrs["device"] = prior
                     I.call_function(callf, [s, dev], {}, None, _F())
                 calls = [e for e in I.events if e["kind"] == "external-call" and e["name"] == "sgio.execute"]
                 muts = [e for e in I.events if e["kind"] in ("static-mutation", "class-store", "global-store", "memo-store")]
                 return s, dev, calls, muts
-            return I.explore(t, max_paths=16)
+            return I.explore(t, max_paths=512)
         finally:
             si.remove()
 
@@ -139,6 +152,8 @@ def check(prog, run, reps=None, only_reattach=False):
     for entry in (() if only_reattach else ("init", "call")):
         fn = init if entry == "init" else callf
         for byte0 in range(256):
+            if enough(run):
+                break
             nvals += 1
             dt = byte0 & 0x1F
             want = reffacade.DEVICE_TYPE_SET.get(dt)
@@ -146,7 +161,7 @@ def check(prog, run, reps=None, only_reattach=False):
             if byte0 < 32:
                 # the selection is a function of the device's answer alone: a facade created with a block size selects the same
                 ps_bs = attach(entry, byte0, blocksize=512)
-                sel = lambda plist: sorted(set(byid.get(id(p.value[1].attrs.get("_opcodes"))) or "?" for p in plist if p.returned))
+                sel = lambda plist: sorted(set(byid.get(id(slot(prog, p.value[1], "opcodes"))) or "?" for p in plist if p.returned))
                 if sel(ps) != sel(ps_bs):
                     run.violation("device-type-selects-set", "SCSI.%s device type %#04x, facade with a block size" % ("__init__" if entry == "init" else "__call__", dt),
                                   "a facade created with blocksize=512 selects %s for device type %#04x, one created without selects %s: the "
@@ -159,7 +174,7 @@ def check(prog, run, reps=None, only_reattach=False):
                                   file, fn.node.lineno, fn.qualname)
                     continue
                 s, dev, calls, muts = p.value
-                got = byid.get(id(dev.attrs.get("_opcodes")))
+                got = byid.get(id(slot(prog, dev, "opcodes")))
                 if want is not None and got != want:
                     run.violation("device-type-selects-set", c,
                                   "peripheral device type %#04x (qualifier %d) selects %r, the reference gives %s" % (dt, byte0 >> 5, got, want),
@@ -185,25 +200,25 @@ def check(prog, run, reps=None, only_reattach=False):
     # re-attach: sequences over pairs of representative types
     reps = reps if reps is not None else [0x00, 0x01, 0x03, 0x05, 0x08, 0x1F]
     npairs = 0
-    for a in reps:
+    for a in ([] if enough(run) else reps):
         for b in reps:
             npairs += 1
             si = StandIn(prog, check_condition="never").install()
             try:
                 def t(a=a, b=b):
                     d1 = fresh_device(prog)
-                    d1.attrs["_opcodes"] = tables["spc"]
+                    put(prog, d1, "opcodes", tables["spc"])
                     d2 = fresh_device(prog)
-                    d2.attrs["_opcodes"] = tables["spc"]
+                    put(prog, d2, "opcodes", tables["spc"])
                     si.device_bytes = device_bytes_for(a)
                     s = I.instantiate(scsi_cls, [d1], {}, None, _F())
                     si.device_bytes = device_bytes_for(b)
                     n_before = len([e for e in I.events if e["kind"] == "external-call" and e["name"] == "sgio.execute"])
                     I.call_function(callf, [s, d2], {}, None, _F())
                     sent = [e for e in I.events if e["kind"] == "external-call" and e["name"] == "sgio.execute"][n_before:]
-                    I.event("reattach-inquiries", n=len(sent), through=[e["args"][0] for e in sent], d2file=d2.attrs.get("_file"))
+                    I.event("reattach-inquiries", n=len(sent), through=[e["args"][0] for e in sent], d2file=slot(prog, d2, "handle"))
                     return s, d1, d2
-                ps = I.explore(t, max_paths=16)
+                ps = I.explore(t, max_paths=64)
             finally:
                 si.remove()
             c = "attach %#04x then re-attach %#04x" % (a, b)
@@ -217,7 +232,7 @@ def check(prog, run, reps=None, only_reattach=False):
                     run.violation("one-standard-inquiry", "re-attach " + c,
                                   "re-attaching sends %d INQUIRY commands to the new device (the selection must be made from the new device's own answer)"
                                   % ri[-1]["n"], file, callf.node.lineno, callf.qualname)
-                g1, g2 = byid.get(id(d1.attrs.get("_opcodes"))), byid.get(id(d2.attrs.get("_opcodes")))
+                g1, g2 = byid.get(id(slot(prog, d1, "opcodes"))), byid.get(id(slot(prog, d2, "opcodes")))
                 w1 = reffacade.DEVICE_TYPE_SET.get(a, g1)
                 w2 = reffacade.DEVICE_TYPE_SET.get(b)
                 # processor / unrecognised types: any table that still offers the primary commands
@@ -245,12 +260,12 @@ def check(prog, run, reps=None, only_reattach=False):
             try:
                 def ts(b=b):
                     d2 = fresh_device(prog)
-                    d2.attrs["_opcodes"] = tables["spc"]
+                    put(prog, d2, "opcodes", tables["spc"])
                     s = I.instantiate(sub_cls, ["x"], {}, None, _F())
                     I.call_function(callf, [s, d2], {}, None, _F())
                     sent = [e for e in I.events if e["kind"] == "external-call" and e["name"] == "sgio.execute"]
                     return s, d2, len(sent)
-                ps = I.explore(ts, max_paths=16)
+                ps = I.explore(ts, max_paths=64)
             finally:
                 si.remove()
             c = "a subclass of SCSI attached by calling it, device type %#04x" % b
@@ -259,7 +274,7 @@ def check(prog, run, reps=None, only_reattach=False):
                     run.violation("reattach", c, "raises %s" % p.raised.describe(), file, callf.node.lineno, callf.qualname)
                     continue
                 s, d2, nsent = p.value
-                g2 = byid.get(id(d2.attrs.get("_opcodes")))
+                g2 = byid.get(id(slot(prog, d2, "opcodes")))
                 w2 = reffacade.DEVICE_TYPE_SET.get(b)
                 prim_ok = g2 is not None and all(n in tables[g2].members for n in reffacade.PRIMARY_COMMANDS)
                 if nsent != 1 or (w2 is not None and g2 != w2) or (w2 is None and not prim_ok) or s.attrs.get("device") is not d2:
